@@ -1,10 +1,217 @@
-import Cutadapt.Proofs.RunnerWriter
-/-! # C12 — broken input makes the run fail visibly (work in progress) -/
+import Cutadapt.Properties.C06
+/-! # C12 — broken input makes the run fail visibly; it never hangs or loses reads silently
+
+Model: the transition system of C06 (`Cutadapt/Runner.lean`) with its fault actions — `readerFault` (the chunker raises in
+`ReaderProcess.run`: `-2` + exception to every worker connection) and a `workerStep` in which `process` raises (the parser
+raises inside `WorkerProcess.run`: `-2` + exception to the main process, the worker stops) —, the main process's
+`_try_receive` (terminate the children, re-raise: outcome `failed`) and `cli.main`'s exit status (`Outcome.exitStatus`).
+Parsing itself is the parameter `process` (dnaio decides what is malformed).
+
+No fairness assumption is needed: a maximal execution is one that cannot be extended; `no_deadlock` (which covers the states
+after a fault) shows that it can only end with the main process stopped, and the measure shows that it is finite.  The
+main process raises as soon as it *receives* an error, and it cannot leave its loop normally while a failed worker's connection
+is open. -/
 namespace Cutadapt.C12
 open Cutadapt Cutadapt.Runner
+
+variable {Chunk Stats Fault : Type}
 
 /-- exit status 0 exactly for the outcome `ok` -/
 theorem exit_status_zero_iff (o : Outcome) : o.exitStatus = some 0 ↔ o = .ok := by
   cases o <;> simp [Outcome.exitStatus]
+
+/-! ## Fault actions -/
+
+/-- the reader's fault action leaves a faulted state -/
+theorem faulted_of_readerFault (cfg : Config Chunk Stats Fault) {s s' : State Stats} (hs : step cfg s .readerFault = some s') :
+    Faulted cfg s' := by
+  obtain ⟨_, _, _, rfl⟩ := step_readerFault hs
+  exact Or.inl rfl
+
+/-- a worker step that processes a chunk on which `process` raises leaves a faulted state -/
+theorem faulted_of_workerFault (cfg : Config Chunk Stats Fault) {s s' : State Stats} {w i : Nat}
+    (hs : step cfg s (.workerStep w) = some s') (hph : (s.workers w).phase = .processing i) (hbad : outOf cfg i = none) :
+    Faulted cfg s' := by
+  obtain ⟨hw, hcase⟩ := step_workerStep hs
+  rcases hcase with ⟨_, _, h, _, _⟩ | ⟨_, h, _, _⟩ | ⟨_, h, _, _⟩ | ⟨j, c, d, st, h, hc, hp, _⟩ | ⟨j, c, e, h, hc, hp, rfl⟩
+  · rw [hph] at h; cases h
+  · rw [hph] at h; cases h
+  · rw [hph] at h; cases h
+  · rw [hph] at h; cases h
+    simp [outOf, hc, hp] at hbad
+  · exact Or.inr ⟨w, hw, by rw [setW_workers_same]⟩
+
+/-- once a fault has occurred it stays visible in the state -/
+theorem faulted_persists (cfg : Config Chunk Stats Fault) {s s' : State Stats} (tr : List Action)
+    (h : run cfg s tr = some s') (hf : Faulted cfg s) : Faulted cfg s' :=
+  faulted_run tr h hf
+
+/-! ## The multi-core runner -/
+
+/-- in a state whose main process returned normally no fault has occurred -/
+theorem ok_not_faulted (cfg : Config Chunk Stats Fault) (hn : 0 < cfg.nWorkers) {s : State Stats} (hr : Reachable cfg s)
+    (hok : s.outcome = .ok) : ¬ Faulted cfg s := by
+  have hf := (reachable_inv hn hr).2.2.ok hok
+  rintro (h | ⟨w, hw, h⟩)
+  · rw [hf.rfailed] at h; cases h
+  · rw [hf.finished w hw] at h; cases h
+
+/-- **`fault_reaches_main`**: from any reachable state in which a fault action has occurred, every maximal execution —
+    every action sequence `tr` that leads to a state in which no action is enabled — ends with the main process `failed`,
+    exit status 1.  None is stuck with the main process still waiting (`no_deadlock` holds in fault states too) … -/
+theorem fault_reaches_main (cfg : Config Chunk Stats Fault) (hn : 0 < cfg.nWorkers) {s s' : State Stats} (hr : Reachable cfg s)
+    (hf : Faulted cfg s) (tr : List Action) (h : run cfg s tr = some s') (hmax : ∀ a, step cfg s' a = none) :
+    s'.outcome = .failed ∧ s'.outcome.exitStatus = some 1 := by
+  have hr' := reachable_run tr hr h
+  have hf' := faulted_run tr h hf
+  have : s'.outcome = .failed := by
+    cases ho : s'.outcome with
+    | running =>
+      obtain ⟨a, s'', hs⟩ := C06.no_deadlock cfg hn hr' ho
+      rw [hmax a] at hs; cases hs
+    | ok => exact absurd hf' (ok_not_faulted cfg hn hr' ho)
+    | failed => rfl
+  exact ⟨this, by rw [this]; rfl⟩
+
+/-- … and none is infinite: at most `measure s` further actions are possible (`C06.terminates`). -/
+theorem fault_executions_finite (cfg : Config Chunk Stats Fault) {s s' : State Stats} (tr : List Action)
+    (h : run cfg s tr = some s') : tr.length ≤ measure cfg s :=
+  C06.executions_finite cfg tr h
+
+/-- a failed run is never spurious: the main process raises only if some worker went through its `except` branch -/
+theorem failed_only_if_fault (cfg : Config Chunk Stats Fault) (hn : 0 < cfg.nWorkers) {s : State Stats} (hr : Reachable cfg s)
+    (hfail : s.outcome = .failed) : Faulted cfg s := by
+  obtain ⟨w, hw, h⟩ := (reachable_inv hn hr).2.2.failed hfail
+  exact Or.inr ⟨w, hw, h⟩
+
+/-- **`exit0_only_if_wellformed`**: exit status 0 ⇒ no fault action has occurred, the chunker did not raise, every chunk
+    was processed without error, and (C06) every file and the statistics are those of the serial run of the whole input. -/
+theorem exit0_only_if_wellformed (cfg : Config Chunk Stats Fault) (hn : 0 < cfg.nWorkers) (hm : IsCommMonoid cfg.add cfg.zero)
+    {s : State Stats} (hr : Reachable cfg s) (h0 : s.outcome.exitStatus = some 0) :
+    ¬ Faulted cfg s ∧ cfg.readerFault = false ∧ (∀ i, i < cfg.chunks.length → (outOf cfg i).isSome = true) ∧
+    (∀ f, (s.writers f).written = concatRange (fun i => outData cfg i f) cfg.chunks.length) ∧
+    (serialRun cfg).outcome = .ok ∧ (∀ f, (s.writers f).written = (serialRun cfg).written f) ∧ s.mstats = (serialRun cfg).stats := by
+  have hok := (exit_status_zero_iff _).mp h0
+  obtain ⟨hsafe, _, hend⟩ := reachable_inv hn hr
+  have hf := hend.ok hok
+  have hmem : ∀ i, i ∈ s.received ↔ i < cfg.chunks.length := by
+    intro i
+    have := hf.all i
+    rw [← List.count_pos_iff]
+    split at this <;> rename_i hi <;> simp only [hi, iff_true, iff_false] <;> omega
+  obtain ⟨h1, h2, h3, _⟩ := C06.parallel_equals_serial cfg hn hm hr hok
+  exact ⟨ok_not_faulted cfg hn hr hok, hf.noReaderFault, fun i hi => hsafe.recvOk i ((hmem i).mpr hi),
+    fun f => ((hsafe.writers f).complete hmem).2.2, h1, h2, h3⟩
+
+theorem concatRange_prefix (data : Nat → Bytes) {k m : Nat} (h : k ≤ m) : concatRange data k <+: concatRange data m := by
+  induction m with
+  | zero => have : k = 0 := by omega
+            subst this; exact List.prefix_refl _
+  | succ m ih =>
+    by_cases hk : k = m + 1
+    · subst hk; exact List.prefix_refl _
+    · exact (ih (by omega)).trans (List.prefix_append _ _)
+
+/-- **`written_prefix_is_serial_prefix`**: in EVERY reachable state — running, returned or failed — there is a `k` such
+    that the chunks `0 … k-1` were all processed without error and every file contains exactly their outputs in input
+    order: a prefix, ending at a chunk boundary, of what the fault-free serial run writes (`concatRange … m` for every
+    `m ≥ k`). Nothing partial, nothing out of order, nothing from beyond a gap is ever written. -/
+theorem written_prefix_is_serial_prefix (cfg : Config Chunk Stats Fault) (hn : 0 < cfg.nWorkers) {s : State Stats}
+    (hr : Reachable cfg s) :
+    ∃ k, k ≤ cfg.chunks.length ∧ (∀ i, i < k → (outOf cfg i).isSome = true) ∧
+      (∀ f, (s.writers f).written = concatRange (fun i => outData cfg i f) k) ∧
+      (∀ f m, k ≤ m → (s.writers f).written <+: concatRange (fun i => outData cfg i f) m) := by
+  obtain ⟨hsafe, _, _⟩ := reachable_inv hn hr
+  refine ⟨(s.writers 0).current, ?_, ?_, ?_, ?_⟩
+  · rcases Nat.lt_or_ge cfg.chunks.length (s.writers 0).current with hlt | hge
+    · have h1 := hsafe.recvOk _ ((hsafe.writers 0).below _ hlt)
+      have : outOf cfg cfg.chunks.length = none := by simp [outOf]
+      rw [this] at h1; cases h1
+    · exact hge
+  · intro i hi
+    exact hsafe.recvOk i ((hsafe.writers 0).below i hi)
+  · intro f
+    rw [(hsafe.writers f).written, (hsafe.writers f).current_unique (hsafe.writers 0)]
+  · intro f m hm
+    rw [(hsafe.writers f).written, (hsafe.writers f).current_unique (hsafe.writers 0)]
+    exact concatRange_prefix _ hm
+
+/-- the main process raises (exit status 1) in at most `measure` steps from the fault; summary of the three statements
+    for maximal executions from the initial state -/
+theorem maximal_execution_verdict (cfg : Config Chunk Stats Fault) (hn : 0 < cfg.nWorkers) (hm : IsCommMonoid cfg.add cfg.zero)
+    (tr : List Action) {s : State Stats} (h : run cfg (init cfg) tr = some s) (hmax : ∀ a, step cfg s a = none) :
+    (s.outcome = .ok ∧ (serialRun cfg).outcome = .ok ∧ ∀ f, (s.writers f).written = (serialRun cfg).written f) ∨
+    (s.outcome = .failed ∧ Faulted cfg s) := by
+  have hr := reachable_run tr Reachable.init h
+  cases ho : s.outcome with
+  | running => exact absurd ho (C06.maximal_execution_ends cfg hn tr h hmax)
+  | ok =>
+    obtain ⟨h1, h2, _, _⟩ := C06.parallel_equals_serial cfg hn hm hr ho
+    exact Or.inl ⟨rfl, h1, h2⟩
+  | failed => exact Or.inr ⟨rfl, failed_only_if_fault cfg hn hr ho⟩
+
+/-! ## The serial runner (one process, the trivial schedule) -/
+
+/-- the serial run always stops … -/
+theorem serial_terminates (cfg : Config Chunk Stats Fault) : (serialRun cfg).outcome = .ok ∨ (serialRun cfg).outcome = .failed :=
+  (serialRun_spec cfg).terminal
+
+/-- … and fails (exit status 1) if the chunker raises or some chunk cannot be processed -/
+theorem serial_fault_fails (cfg : Config Chunk Stats Fault)
+    (hf : cfg.readerFault = true ∨ ∃ i, i < cfg.chunks.length ∧ outOf cfg i = none) :
+    (serialRun cfg).outcome = .failed ∧ (serialRun cfg).outcome.exitStatus = some 1 := by
+  have hS := serialRun_spec cfg
+  have : (serialRun cfg).outcome = .failed := by
+    rcases hS.terminal with hok | hfl
+    · obtain ⟨hd, hnr⟩ := hS.ok_iff.mp hok
+      rcases hf with hf | ⟨i, hi, hbad⟩
+      · rw [hnr] at hf; cases hf
+      · have := hS.okBefore i (by omega)
+        rw [hbad] at this; cases this
+    · exact hfl
+  exact ⟨this, by rw [this]; rfl⟩
+
+/-- serial `exit0_only_if_wellformed`: status 0 ⇒ no fault, and every file holds the output of every chunk, in order -/
+theorem serial_exit0_only_if_wellformed (cfg : Config Chunk Stats Fault) (h0 : (serialRun cfg).outcome.exitStatus = some 0) :
+    cfg.readerFault = false ∧ (∀ i, i < cfg.chunks.length → (outOf cfg i).isSome = true) ∧
+    (∀ f, (serialRun cfg).written f = concatRange (fun i => outData cfg i f) cfg.chunks.length) := by
+  have hS := serialRun_spec cfg
+  obtain ⟨hd, hnr⟩ := hS.ok_iff.mp ((exit_status_zero_iff _).mp h0)
+  exact ⟨hnr, fun i hi => hS.okBefore i (by omega), fun f => by rw [hS.written f, hd]⟩
+
+/-- serial `written_prefix_is_serial_prefix`: whatever the outcome, each file holds the outputs of the chunks before the
+    first faulty one (at chunk granularity; the real serial runner writes record by record inside `process`) -/
+theorem serial_written_prefix (cfg : Config Chunk Stats Fault) :
+    ∃ k, k ≤ cfg.chunks.length ∧ (∀ i, i < k → (outOf cfg i).isSome = true) ∧
+      (∀ f, (serialRun cfg).written f = concatRange (fun i => outData cfg i f) k) ∧
+      (k < cfg.chunks.length → outOf cfg k = none ∧ (serialRun cfg).outcome = .failed) := by
+  have hS := serialRun_spec cfg
+  refine ⟨(serialRun cfg).done, hS.done_le, hS.okBefore, hS.written, fun hlt => ⟨hS.stopped hlt, ?_⟩⟩
+  rcases hS.terminal with hok | hfl
+  · have := (hS.ok_iff.mp hok).1; omega
+  · exact hfl
+
+/-! ## Concrete instances (2 workers, 3 chunks) -/
+
+/-- chunk 1 is malformed: worker 1 raises, the main process receives chunk 0's result, then the error -/
+def faultTrace : List Action :=
+  [.workerRequest 0, .workerRequest 1, .readerSend, .readerSend, .workerStep 0, .workerStep 1, .workerStep 1, .workerStep 0,
+   .mainRecv 0, .mainRecv 1]
+
+example : (run (toyConfig 2 3 [1] false) (init (toyConfig 2 3 [1] false)) faultTrace).map
+      (fun s => ((s.writers 0).written, s.outcome, s.outcome.exitStatus, (enabled (toyConfig 2 3 [1] false) s).length))
+    = some ([0, 0], .failed, some 1, 0) := by decide
+
+/-- the chunker raises after two chunks: both workers get the reader's error, the first one to report it stops the run -/
+def readerFaultTrace : List Action :=
+  [.workerRequest 0, .readerSend, .workerStep 0, .workerStep 0, .workerRequest 1, .readerSend, .workerStep 1, .readerFault,
+   .workerRequest 0, .workerStep 0, .mainRecv 0, .mainRecv 0]
+
+example : (run (toyConfig 2 2 [] true) (init (toyConfig 2 2 [] true)) readerFaultTrace).map
+      (fun s => ((s.writers 0).written, s.outcome, (enabled (toyConfig 2 2 [] true) s).length))
+    = some ([0, 0], .failed, 0) := by decide
+
+example : ((serialRun (toyConfig 2 3 [1] false)).written 0, (serialRun (toyConfig 2 3 [1] false)).outcome) = ([0, 0], .failed) := by
+  decide
 
 end Cutadapt.C12
